@@ -9,6 +9,7 @@ import (
 	"runtime"
 	"strings"
 	"time"
+	wdog "verifharness/wd"
 
 	"github.com/goatcms/goatcore/app/modules/pipelinem/pipcommands/pipc"
 	"verifharness/pipx"
@@ -147,7 +148,7 @@ func cmdTrySeq(args []string) error {
 				} else {
 					wd.Log.Emit(map[string]interface{}{"ev": "final", "outererr": outerErr})
 				}
-			case <-time.After(15 * time.Second):
+			case <-wdog.After(15 * time.Second):
 				buf := make([]byte, 1<<16)
 				n := runtime.Stack(buf, true)
 				wd.Log.Emit(map[string]interface{}{"ev": "hang", "script": text, "goroutines": string(buf[:n])})
@@ -262,7 +263,7 @@ func cmdTryTrace(args []string) error {
 									select {
 									case <-yEnded:
 										time.Sleep(5 * time.Millisecond)
-									case <-time.After(2 * time.Second):
+									case <-wdog.After(2 * time.Second):
 									}
 								}
 							}
@@ -279,7 +280,7 @@ func cmdTryTrace(args []string) error {
 						select {
 						case outerErr := <-done:
 							wd.Log.Emit(map[string]interface{}{"ev": "final", "outererr": outerErr})
-						case <-time.After(15 * time.Second):
+						case <-wdog.After(15 * time.Second):
 							buf := make([]byte, 1<<16)
 							n := runtime.Stack(buf, true)
 							wd.Log.Emit(map[string]interface{}{"ev": "hang", "script": text, "goroutines": string(buf[:n])})
